@@ -8,7 +8,7 @@ PROPS = {
         'title': 'Behaviour does not depend on the identifiers chosen',
         'level_text': "PARTIAL. Proof (C18.parseStates_rename, graph_rename, delta_rename; Lemmas/Rename.parse_ren): an injective renaming of state and superstate names commutes with parsing the states section (all nesting depths), with building the transition graph and with delta_M, so the declared relation of the renamed definition is the renamed relation; with C01-C16 (which hold for every validated machine whatever its names, under the no-collision side conditions N1/N2) the renamed machine behaves as the renamed specification. Clashes with identifiers used inside the generated code are rustc's name resolution, not a Lean statement: they are probed by T4 rename (adversarial identifier pool x context mode x dynamic, each against its neutral twin over the whole probe matrix) and by T2 on a corpus drawing names from that pool.",
         'level_note': 'Known finding F6 (state named C with generic context) is listed in known_findings.json and re-observed on every run. Ties: T2 all regions, T4 rename.',
-        'modules': ['SMV.Props.C18'],
+        'modules': ['SMV.Props.C18', 'SMV.Props.C18Twin'],
         'regions': ['FE', 'MK', 'ST', 'IH', 'CT', 'SIG', 'SUB', 'EV', 'AS', 'DN', 'ID', 'EX'],
         't3': ['walk', 'assign'],
         't4': ['rename'],
@@ -64,7 +64,7 @@ PROPS = {
         'title': 'Dynamic machine follows exactly the declared transition relation',
         'level_text': "Proof (C01.follows_delta, handle_step, new_initial; Lemmas/Handle.handleProg_eq): for every validated machine, every finite sequence of declared events, payloads, hook environment and history, the wrapper created by new is after each returning handle in exactly the state obtained by folding delta_M over the accepted events; an event without transition from the current state is refused with InvalidTransition{from: current, event} without running a hook and leaves the wrapper unchanged; current_state() always names a declared leaf. delta_M is the machine's transition graph; that the graph is the declared relation with superstates expanded/resolved is C07.",
         'level_note': 'Side conditions stated in the theorems: the machine validates, its graph is the one built from its events (what parse returns), PascalCase images of event names pairwise distinct (N1; the real code at the excluded point does not compile: duplicate enum variant). Ties: T1 (graph), T2 regions FE IH SIG CN CT EV AS DN HD CS, T3 walk/hier/abandon.',
-        'modules': ['SMV.Props.C01'],
+        'modules': ['SMV.Props.C01', 'SMV.Props.Refine'],
         'regions': ['FE', 'IH', 'SIG', 'CN', 'CT', 'EV', 'AS', 'DN', 'HD', 'CS'],
         't3': ['walk', 'assign', 'abandon', 'susp'],
         'design_ref': 'DESIGN.md §7 C01',
